@@ -408,6 +408,19 @@ func templateCases() []CacheCase {
 		out = append(out, CacheCase{Tasks: dl, Init: map[string]string{".store/s.txt": "0", "f1.txt": "0", "sub/f3.txt": "0"}, Links: map[string]string{"lnd": ".store"}, Steps: []Step{
 			run([]string{"A", "B"}, false, nil), {Op: "write", File: ".store/s.txt", Content: "1"}, fin, fin, {Op: "write", File: ".store/s.txt", Content: "0"}, fin}})
 	}
+	// the set of files a glob names shrinks to nothing, shrinks, grows, or is swapped for another
+	// file of the same content, after an unforced / forced / unforced-then-forced success
+	mix := []TaskSpec{{Name: "A", Files: []string{"b.txt"}, Globs: []string{"s*.c"}, NCmds: 1}, {Name: "B", Globs: []string{"s*.c"}, NCmds: 1}}
+	del := func(f string) Step { return Step{Op: "delete", File: f} }
+	wr := func(f, c string) Step { return Step{Op: "write", File: f, Content: c} }
+	for _, firsts := range [][]Step{{run([]string{"A", "B"}, false, nil)}, {run([]string{"A", "B"}, true, nil)}, {run([]string{"A", "B"}, false, nil), run([]string{"A"}, true, nil)}, {run([]string{"A", "B"}, false, nil), wr("s1.c", "1"), run([]string{"B", "A"}, true, nil)}} {
+		for _, change := range [][]Step{{del("s1.c"), del("s2.c")}, {del("s1.c")}, {wr("s3.c", "0")}, {del("s1.c"), wr("s3.c", "0")}, {del("s1.c"), del("s2.c"), wr("s2.c", "0")}} {
+			for _, fin := range final {
+				steps := append(append(append([]Step(nil), firsts...), change...), fin, fin)
+				out = append(out, CacheCase{Tasks: mix, Init: map[string]string{"b.txt": "0", "s1.c": "0", "s2.c": "0"}, Steps: steps})
+			}
+		}
+	}
 	// a dependency that is a symbolic link: the target is edited, not the link
 	linked := []TaskSpec{{Name: "A", Files: []string{"ln.txt"}, NCmds: 1}, {Name: "B", Globs: []string{"l*.txt"}, NCmds: 1}}
 	for _, fin := range final {
